@@ -332,7 +332,7 @@ def gen_case(rng):
         elif r < 0.65:
             ops.append(["setst", rng.randrange(n), rng.random() < 0.5])
         elif r < 0.70:
-            ops.append(["set", {"raw": rng.choice(INVALID)}])
+            ops.append(["set", {"raw": rng.choice(INVALID + [None, None])}])      # (None is not a state value either)
         elif r < 0.75:
             like = rng.randrange(n)
             raw = rng.choice(INVALID) if rng.random() < 0.7 else rng.choice([v for v in values if v is not None] or INVALID)
